@@ -1392,8 +1392,10 @@ func (e *CoreExtension) filterFirst(value interface{}, args ...interface{}) (int
 		}
 		return nil, nil
 	case map[string]interface{}:
-		for _, val := range v {
-			return val, nil // Return first value found
+		// "First" of a map is the value of its smallest key, the same element a
+		// for loop visits first; it must not depend on Go's map iteration order
+		if keys := sortedMapKeys(reflect.ValueOf(v)); len(keys) > 0 {
+			return v[keys[0].String()], nil
 		}
 		return nil, nil
 	}
@@ -1413,8 +1415,8 @@ func (e *CoreExtension) filterFirst(value interface{}, args ...interface{}) (int
 		}
 		return nil, nil
 	case reflect.Map:
-		for _, key := range rv.MapKeys() {
-			return rv.MapIndex(key).Interface(), nil // Return first value found
+		if keys := sortedMapKeys(rv); len(keys) > 0 {
+			return rv.MapIndex(keys[0]).Interface(), nil
 		}
 		return nil, nil
 	}
@@ -1703,7 +1705,7 @@ func (e *CoreExtension) filterKeys(value interface{}, args ...interface{}) (inte
 	if rv.Kind() == reflect.Map {
 		// For maps, return the keys as a slice of the same type as the keys
 		keys := make([]interface{}, 0, rv.Len())
-		for _, key := range rv.MapKeys() {
+		for _, key := range sortedMapKeys(rv) {
 			if key.CanInterface() {
 				keys = append(keys, key.Interface())
 			}
